@@ -21,21 +21,24 @@ func genGated(r *core.Rand, prop string, weights []int, minA, maxA int) *core.Sc
 	sc.Cfg["labels"] = r.Intn(2)
 	sc.Cfg["nopar"] = r.Intn(2)
 	sc.Cfg["idlebulk"] = []int{0, 0, 500, 200}[r.Intn(4)]
-	if r.P(1, 4) {
+	// Interleaving / input classes that trigger separately recorded defects (F07, F08, F09):
+	// at most ONE of them per run, in a quarter of the runs altogether, so that three runs
+	// out of four are judged without any of those findings being able to explain a violation.
+	switch r.Intn(16) {
+	case 0:
 		sc.Cfg["readd"] = 1 // messages may live in several mailboxes and be re-added (finding F08)
-	} else {
+	case 1:
+		sc.Cfg["overtake"] = 1 // a session's own changes may overtake updates queued for it (finding F07)
+	case 2:
+		sc.Cfg["preselect"] = 1 // updates queued before SELECT (finding F09)
+	case 3:
+		sc.Cfg["selfcopy"] = 1 // COPY/MOVE into the selected mailbox itself (finding F08)
+	}
+	if sc.Cfg["readd"] == 0 {
 		sc.Cfg["labels"] = 0
 	}
 	if r.P(1, 4) {
-		sc.Cfg["overtake"] = 1 // a session's own changes may overtake updates queued for it (finding F07)
-	}
-	if r.P(1, 4) {
 		sc.Cfg["lazyuid"] = 1 // the client does not ask for the UIDs of newly announced messages
-	}
-	for _, k := range []string{"preselect", "selfcopy"} {
-		if r.P(1, 6) {
-			sc.Cfg[k] = 1 // enable an interleaving class that triggers a separately reported defect
-		}
 	}
 	ns := sc.Cfg["nsess"]
 	// most sessions look at the same mailbox: that is where updates cross
